@@ -1680,16 +1680,38 @@ def _dft_rows(a, inverse, axis):
 
 class _FFT:
     @staticmethod
+    def _resize(a, n, axis):
+        """numpy's n argument: the input is cropped or zero-padded to n samples along the axis before the transform."""
+        a = _as_nd(a)
+        n = operator.index(n)
+        if n < 1:
+            raise ValueError(f'Invalid number of FFT data points ({n}) specified.')
+        moved = _np.moveaxis(a._a, axis, -1)
+        cur = moved.shape[-1]
+        if n <= cur:
+            out = moved[..., :n]
+        else:
+            out = _obj(moved.shape[:-1] + (n,))
+            out[...] = cast(0, a._tag)
+            out[..., :cur] = moved
+        return ndarray(_np.moveaxis(out, -1, axis).copy(), a._tag)
+
+    @staticmethod
     def fft(a, n=None, axis=-1):
         if n is not None:
-            raise EncodingGap('fft with n')
+            a = _FFT._resize(a, n, axis)
         return _dft_rows(a, False, axis)
 
     @staticmethod
     def ifft(a, n=None, axis=-1):
         if n is not None:
-            raise EncodingGap('ifft with n')
+            a = _FFT._resize(a, n, axis)
         return _dft_rows(a, True, axis)
+
+    @staticmethod
+    def next_fast_len(target, real=False):
+        import scipy.fft as _sf
+        return int(_sf.next_fast_len(operator.index(target), real))
 
     @staticmethod
     def fftshift(a, axes=None):
